@@ -9,11 +9,47 @@
 //              the old-blocks window, cleanUp() runs: no freed memory is touched, stale payloads are forgotten.
 #include "common/real_env.hpp"
 #include <veriblock/pop/mempool.hpp>
+#ifdef DBG
+#include <cstdio>
+#endif
 using namespace vr;
 #ifndef NSUB
 #define NSUB 3
 #endif
 static RealWorld* W;
+#ifdef MODE_SUBMIT
+// link-level oracles (spec: 'override'): signatures and address derivation answer "valid"; everything else is the real code
+namespace altintegration {
+bool Address::isDerivedFromPublicKey(Slice<const uint8_t>) const { return true; }
+namespace secp256k1 {
+PublicKey publicKeyFromVbk(PublicKeyVbk) { return PublicKey(); }
+bool verify(Slice<const uint8_t>, Signature, PublicKey) { return true; }
+}  // namespace secp256k1
+}  // namespace altintegration
+// the per-type maps, the VBK relations and isKnown describe the same SET (C13): a resubmitted connected payload may sit twice in
+// its relation (equal content, adjacent because the relation is ordered / appended), which is counted once here; what such a
+// duplicate may NOT do is show up in generatePopData (checks 14, 16) or survive removeAll (checks 20..23)
+static void checkViews(MemPool& mp, int base) {
+  size_t relAtvs = 0, relVtbs = 0;
+  for (auto& kv : mp.relations_) {
+    auto& r = *kv.second;
+    verif_check(r.header && r.header->getId() == kv.first, base);
+    verif_check(mp.vbkblocks_.count(kv.first) == 1, base + 1);
+    const ATV* lastA = nullptr; const VTB* lastV = nullptr;
+    for (auto& a : r.atvs) { relAtvs += !(lastA && lastA->getId() == a->getId()); lastA = a.get(); verif_check(mp.stored_atvs_.count(a->getId()) == 1 && a->blockOfProof.getId() == kv.first, base + 2); }
+    for (auto& v : r.vtbs) { relVtbs += !(lastV && lastV->getId() == v->getId()); lastV = v.get(); verif_check(mp.stored_vtbs_.count(v->getId()) == 1 && v->containingBlock.getId() == kv.first, base + 3); }
+  }
+#ifdef DBG
+  fprintf(stderr, "views: relAtvs=%zu stored=%zu relVtbs=%zu storedv=%zu rel=%zu vbk=%zu\n", relAtvs, mp.stored_atvs_.size(), relVtbs, mp.stored_vtbs_.size(), mp.relations_.size(), mp.vbkblocks_.size());
+#endif
+  verif_check(relAtvs == mp.stored_atvs_.size(), base + 4);
+  verif_check(relVtbs == mp.stored_vtbs_.size(), base + 5);
+  verif_check(mp.relations_.size() == mp.vbkblocks_.size(), base + 6);
+  for (auto& kv : mp.stored_atvs_) verif_check(mp.getInFlightMap<ATV>().find(kv.first) == mp.getInFlightMap<ATV>().end(), base + 7);   // connected XOR in flight
+  for (auto& kv : mp.stored_vtbs_) verif_check(mp.getInFlightMap<VTB>().find(kv.first) == mp.getInFlightMap<VTB>().end(), base + 8);
+  for (auto& kv : mp.vbkblocks_) verif_check(mp.getInFlightMap<VbkBlock>().find(kv.first) == mp.getInFlightMap<VbkBlock>().end(), base + 9);
+}
+#endif
 static uint64_t mixh(uint64_t h, uint64_t v) { h ^= v + 0x9e3779b97f4a7c15ull + (h << 6) + (h >> 2); return h * 0x100000001b3ull; }
 static uint64_t treesDigest() {
   AltBlockTree& t = *W->alt;
@@ -84,6 +120,83 @@ extern "C" __attribute__((noinline)) void h_mempool() {
   bool orphanLeft = false; for (int x = 2; x <= NB; x++) orphanLeft = orphanLeft || (submitted[x] && !connectable[x]);
   if (orphanLeft) verif_cover(2);
   verif_observe(pd.context.size());
+#elif defined(MODE_SUBMIT)
+  // ALT 1-2 active.  Miner side: VBK 1-2, then VBK 3 (on 2) carries ATV A endorsing ALT 2, VBK 4 (on 3) carries VTB V that
+  // endorses VBK 2 in BTC block 2.  The five payloads {VBK2, VBK3, VBK4, A, V} are submitted NSUB times in a symbolic order
+  // (repeats allowed) through the real submit<> paths (stateless + stateful checks).
+  addAltHeader(w, 2, 1);
+  { PopData none; t.acceptBlock(altHash(2), none); ValidationState s; verif_check(t.setState(altHash(2), s), 1); }
+  mineVbk(w, 1);                                                    // VBK 2
+  ATV A = makeValidATV(w, 2, 2, 1);                                 // VBK 3 = block of proof of A
+  VTB V = makeValidVTB(w, 2, 3, 1, 2);                              // BTC 2, VBK 4 = containing block of V
+  enum { P_VBK2, P_VBK3, P_VBK4, P_A, P_V, NP };
+  bool sub[NP] = {false};
+  for (int k = 0; k < NSUB; k++) {
+    uint32_t what = verif_choice(0, NP - 1);
+    ValidationState st;
+    MemPool::SubmitResult r;
+    if (what <= P_VBK4) r = mp.submit<VbkBlock>(w.vbkById[2 + what], true, st);
+    else if (what == P_A) r = mp.submit<ATV>(A, true, st);
+    else r = mp.submit<VTB>(V, true, st);
+    verif_check(r.status != MemPool::FAILED_STATELESS, 2);          // honest payloads pass the stateless checks (C19/C05 side)
+    sub[what] = true;
+    checkViews(mp, 100);
+    // never lost, never invented
+#ifdef DBG
+    fprintf(stderr, "k=%d what=%u status=%d known vbk: %d %d %d  A:%d/%d V:%d/%d rel=%zu vbkblocks=%zu\n", k, what, (int)r.status, (int)mp.isKnown<VbkBlock>(w.vbkById[2].getId(), true), (int)mp.isKnown<VbkBlock>(w.vbkById[3].getId(), true), (int)mp.isKnown<VbkBlock>(w.vbkById[4].getId(), true),
+            (int)mp.isKnown<ATV>(A.getId(), false), (int)mp.isKnown<ATV>(A.getId(), true), (int)mp.isKnown<VTB>(V.getId(), false), (int)mp.isKnown<VTB>(V.getId(), true), mp.relations_.size(), mp.vbkblocks_.size());
+#endif
+    for (int x = 0; x < 3; x++) verif_check(mp.isKnown<VbkBlock>(w.vbkById[2 + x].getId(), true) == (sub[x] || (x == 1 && mp.getMap<ATV>().count(A.getId()) > 0) || (x == 2 && mp.getMap<VTB>().count(V.getId()) > 0)), 3);   // a connected ATV/VTB brings its VBK block along
+    verif_check(mp.isKnown<ATV>(A.getId(), true) == sub[P_A], 4);
+    verif_check(mp.isKnown<VTB>(V.getId(), true) == sub[P_V], 5);
+  }
+  uint64_t before = treesDigest();
+  PopData pd = mp.generatePopData();
+  verif_check(treesDigest() == before, 6);                          // side-effect free (C12)
+  checkViews(mp, 200);
+  // completeness: a payload whose whole VBK context was SUBMITTED is connected now, whatever the order (C13)
+  bool ctxA = sub[P_VBK2], ctxV = sub[P_VBK2] && sub[P_VBK3];
+  if (sub[P_A] && ctxA) verif_check(mp.getMap<ATV>().count(A.getId()) == 1, 7);
+  if (sub[P_V] && ctxV) verif_check(mp.getMap<VTB>().count(V.getId()) == 1, 8);
+  if (sub[P_A] && !ctxA) verif_check(mp.getInFlightMap<ATV>().find(A.getId()) != mp.getInFlightMap<ATV>().end(), 9);   // not connectable: still in flight, not lost
+  // and is offered (both are statefully valid on the current tip)
+  bool hasA = false, hasV = false;
+  for (auto& a : pd.atvs) hasA = hasA || a.getId() == A.getId();
+  for (auto& v : pd.vtbs) hasV = hasV || v.getId() == V.getId();
+  if (sub[P_A] && ctxA) verif_check(hasA, 10);
+  if (sub[P_V] && ctxV) verif_check(hasV, 11);
+  verif_check(!hasA || sub[P_A], 12); verif_check(!hasV || sub[P_V], 13);
+  verif_check(pd.atvs.size() <= 1 && pd.vtbs.size() <= 1 && pd.context.size() <= 3, 14);      // no duplicates, nothing invented
+  verif_check(pd.estimateSize() <= w.ap.getMaxPopDataSize(), 15);
+  { ValidationState cs; PopData copy = pd; copy.checked = false; for (auto& a : copy.atvs) a.checked = false; for (auto& v : copy.vtbs) v.checked = false;
+    verif_check(copy.context.size() <= w.ap.getMaxVbkBlocksInAltBlock() && copy.vtbs.size() <= w.ap.getMaxVTBsInAltBlock() && copy.atvs.size() <= w.ap.getMaxATVsInAltBlock() && checkPopDataForDuplicates(copy, cs), 16);
+    for (auto& a : copy.atvs) verif_check(checkATV(a, cs, w.ap, w.vp), 17);                   // passes the stateless checks (C12)
+    for (auto& v : copy.vtbs) verif_check(checkVTB(v, cs, w.bp, w.vp), 18); }
+  // statefully valid: the next block carrying exactly this PopData connects and activates (C12)
+  addAltHeader(w, 3, 2);
+  t.acceptBlock(altHash(3), pd);
+  ValidationState st3;
+  verif_check(t.setState(altHash(3), st3), 19);
+  // the block is on chain now: removeAll forgets its payloads, nothing of it is offered again (C13)
+  mp.removeAll(pd);
+  checkViews(mp, 300);
+  if (hasA) verif_check(!mp.isKnown<ATV>(A.getId(), true), 20);
+  if (hasV) verif_check(!mp.isKnown<VTB>(V.getId(), true), 21);
+  PopData pd2 = mp.generatePopData();
+  checkViews(mp, 400);
+  for (auto& a : pd2.atvs) verif_check(!hasA || a.getId() != A.getId(), 22);
+  for (auto& v : pd2.vtbs) verif_check(!hasV || v.getId() != V.getId(), 23);
+  for (auto& b : pd2.context) for (auto& o : pd.context) verif_check(b.getId() != o.getId(), 24);
+  // whatever is offered now is again valid for the next block
+  addAltHeader(w, 4, 3);
+  t.acceptBlock(altHash(4), pd2);
+  ValidationState st4;
+  verif_check(t.setState(altHash(4), st4), 25);
+  if (hasA && hasV) verif_cover(1);
+  if (hasA && !hasV) verif_cover(2);
+  if (sub[P_V] && !hasV) verif_cover(3);
+  if (!pd2.context.empty() || !pd2.vtbs.empty() || !pd2.atvs.empty()) verif_cover(4);
+  verif_observe(pd.context.size() * 16 + pd.atvs.size() * 4 + pd.vtbs.size());
 #elif defined(MODE_STALE)
   w.vp.mOldBlocksWindow = 1;
   mineVbk(w, 1); mineVbk(w, 2); mineVbk(w, 3); mineVbk(w, 4);     // VBK 2..5
